@@ -125,6 +125,9 @@ func runC19RT(t *testing.T, sc *world.Scenario) *check.Result {
 	case "huge-output":
 		body, wantErr = "#!/bin/sh\nhead -c 3000000 /dev/zero | tr '\\0' '7'\n", false
 		wantOut = strings.Repeat("7", 3000000)
+		// three megabytes through two processes and a pipe: with a deadline of a fraction of a second the command
+		// may honestly run into it on a busy machine - then the deadline error is the right answer, in time
+		either = timeout < time.Second
 	case "stderr-flood":
 		body, wantOut, wantErr = "#!/bin/sh\nhead -c 2000000 /dev/zero | tr '\\0' 'e' >&2\necho 9\n", "9", false
 	}
